@@ -1399,7 +1399,41 @@ func c06Tie(r *Result, cases []c06TieCase) {
 	}
 }
 
+// c06Linear: the hypothesis `Linear` of the Lean theorems (Lemmas/HeapQuiet.lean) — handle 0 and results of
+// derivations may be used any number of times, every other handle at most once; no forward references.
+func c06Linear(h c06Hist) bool {
+	uses := map[int]int{}
+	for j, o := range h.Ops {
+		if o.Name == "skip" {
+			continue
+		}
+		for _, u := range append([]int{o.Src}, o.args()...) {
+			if u > j {
+				return false
+			}
+			uses[u]++
+		}
+	}
+	for i, n := range uses {
+		if i == 0 || n <= 1 {
+			continue
+		}
+		switch h.Ops[i-1].Name {
+		case "session", "debug", "newdb", "ctx", "begin":
+		default:
+			return false
+		}
+	}
+	return true
+}
+
 func c06Stats(r *Result, h c06Hist, full map[int]c06Out) (nontrivial bool) {
+	if c06Linear(h) {
+		r.H("history_is_Linear (hypothesis of C06_noninterference)", "yes")
+	} else {
+		r.H("history_is_Linear (hypothesis of C06_noninterference)", "NO")
+		r.Violate(Violation{Kind: "correspondence", Suite: "tie", Input: h, Observed: "generated history is not Linear", Expected: "the generator obeys the property's quantifier (a chain instance is used at most once more)"})
+	}
 	r.H("ops", fmt.Sprint(len(h.Ops)/5*5, "+"))
 	users := map[int]int{}
 	renders := 0
